@@ -9,7 +9,8 @@ abstracted to the corresponding edit of the node sequence (modelled, not verifie
 §7; the real pointer code runs under ASan in the correspondence harness).  What is kept as written:
 which node a new element gets (free-list head first, otherwise a fresh allocation), that erased
 nodes go to the front of the free list, that node identities never change while the element lives
-(iterator stability, also across `splice` and `swap`), and the lazy head allocation.
+(iterator stability, also across `splice` and `swap`), and the lazy head allocation (by the first
+insertion or splice into the list, never by `begin()`/`end()`/`size()`/`clear()`).
 
 `none` = undefined behaviour (an iterator that is not a node of the list, `pop_*`/`front`/`back`/
 `erase(end())` on an empty list).  Node ids are drawn from a counter shared by all lists (`next`),
@@ -35,7 +36,9 @@ variable {α : Type}
 
 def toList (l : XL α) : List α := l.live.map (·.2)
 
-/-- `getListHead()`: every `begin()`/`end()`, also from `size()`/`empty()`, allocates the head -/
+/-- `getListHead()`: creates the head (sentinel) node if the list has none.  Since the repair c994d6f
+`begin()`/`end()` of a list without a head return a null iterator pair and allocate nothing; the head
+is created by the first insertion (`constructNode` → `positionNode`) or by a `splice` into the list. -/
 def touch (l : XL α) : XL α := { l with head := true }
 
 /-- number of blocks this list holds from the memory manager -/
@@ -60,7 +63,6 @@ def erase (l : XL α) (pos : LPos) : Option (XL α) :=
   match pos with
   | .endPos => none
   | .node id =>
-    let l := touch l
     (l.indexOf (.node id)).map fun i => { l with live := l.live.eraseIdx i, free := id :: l.free }
 
 def pushBack (l : XL α) (next : Nat) (x : α) : Option (XL α × Nat × Nat) := constructNode l next x .endPos
@@ -90,7 +92,6 @@ def deref (l : XL α) (id : Nat) : Option α := (l.live.find? (fun p => p.1 == i
 /-- `clear()`: `freeNode` on every node from the front; the last node freed ends up at the head of
 the free list -/
 def clear (l : XL α) : XL α :=
-  let l := touch l
   { l with live := [], free := (l.live.map (·.1)).reverse ++ l.free }
 
 /-- `splice(pos, list, toInsert)` within one list (`&list == this`) -/
@@ -106,16 +107,17 @@ def spliceSelf (l : XL α) (pos : LPos) (id : Nat) : Option (XL α) :=
 def spliceFrom (l src : XL α) (pos : LPos) (id : Nat) : Option (XL α × XL α) :=
   (src.live.find? (fun p => p.1 == id)).bind fun nd =>
   (l.indexOf pos).map fun i =>
-    ({ l with live := l.live.take i ++ [nd] ++ l.live.drop i },
+    ({ l with head := true, live := l.live.take i ++ [nd] ++ l.live.drop i },
      { src with live := src.live.filter (fun p => p.1 != id) })
 
 /-- `splice(pos, list, first, last)` between two different lists, the range given as
 index interval `[a, b)` of `src` -/
 def spliceRangeFrom (l src : XL α) (pos : LPos) (a b : Nat) : Option (XL α × XL α) :=
   if a > b ∨ b > src.live.length then none
+  else if a = b then (l.indexOf pos).map fun _ => (l, src)        -- `toInsertFirst == toInsertLast`: nothing happens
   else
     (l.indexOf pos).map fun i =>
-      ({ l with live := l.live.take i ++ (src.live.drop a).take (b - a) ++ l.live.drop i },
+      ({ l with head := true, live := l.live.take i ++ (src.live.drop a).take (b - a) ++ l.live.drop i },
        { src with live := src.live.take a ++ src.live.drop b })
 
 end XL
